@@ -19,7 +19,7 @@ def run(tier, seed):
                 '_idx2model (preserved by GroupBase.add; required by the lookups)',
                 'DeviceFinder: the lookup relation target -> helper is a ghost map updated by every System.add of the call')
     items = [(G.group_add('C19'),), (G.get_next_idx('C19'),), (G.one_idx2uid('C19'), None, G.replay_model_idx2uid), (G.model_idx2uid('C19'), None, G.replay_model_idx2uid), (G.group_idx2uid('C19'),),
-             (G.modeldata_add('C19'),), (G.idxparam_add('C19'),), (G.system_add('C19'),), (G.find_or_add('C19'), None, G.replay_find_or_add),
+             (G.modeldata_add('C19'),), (G.idxparam_add('C19'), None, G.replay_idxparam_add), (G.system_add('C19'),), (G.find_or_add('C19'), None, G.replay_find_or_add),
              (G.set_backref_model('C19'),), (G.collect_ref_links('C19'), None, G.replay_collect_ref)]
     run_contracts(pack, items)
     bounded(pack, tier)
